@@ -1129,8 +1129,14 @@ class StrategyBase(Node):
 
         # Adjust prices for bid/offer paid if needed
         if self._bidoffer_set:
-            bidoffer = pd.DataFrame({x.name: x.bidoffers_paid for x in self.securities}).unstack()
-            prc += bidoffer / trades
+            # aggregate same-named securities, like the positions above
+            bidoffer = pd.DataFrame()
+            for x in self.securities:
+                if x.name in bidoffer.columns:
+                    bidoffer[x.name] += x.bidoffers_paid
+                else:
+                    bidoffer[x.name] = x.bidoffers_paid
+            prc += bidoffer.unstack() / trades
 
         res = pd.DataFrame({"price": prc, "quantity": trades}).dropna(subset=["quantity"])
 
